@@ -6,6 +6,9 @@ import (
 	"fmt"
 	"math"
 	"math/rand"
+	"os"
+	"path/filepath"
+	"runtime/pprof"
 	"sort"
 	"strings"
 	"sync"
@@ -213,17 +216,17 @@ func genC01(rng *rand.Rand, trial int) *c01Spec {
 }
 
 type c01Trial struct {
-	sp      *c01Spec
-	m       *mesh.Mesh
-	mu      sync.Mutex
-	orig    map[string]map[string]bool // node -> set of "epoch/seq" originated
-	order   []byte                     // running hash input of delivery order
-	h       [32]byte
-	routes  int64
-	links   map[string]*mesh.LinkInfo
-	silentL map[string]bool
-	dead    map[string]bool // abruptly dead nodes (zombie instance still running, isolated)
-	idleEv  bool
+	sp       *c01Spec
+	m        *mesh.Mesh
+	mu       sync.Mutex
+	orig     map[string]map[string]bool // node -> set of "epoch/seq" originated
+	order    []byte                     // running hash input of delivery order
+	h        [32]byte
+	routes   int64
+	links    map[string]*mesh.LinkInfo
+	silentL  map[string]bool
+	dead     map[string]bool // abruptly dead nodes (zombie instance still running, isolated)
+	idleEv   bool
 	parallel int
 }
 
@@ -493,6 +496,8 @@ func (t *c01Trial) waitRounds(k int, watchdog time.Duration) bool {
 }
 
 func runC01Trial(run *ev.Run, sp *c01Spec, seed int64) {
+	startLagProbe()
+	trialStart := time.Now()
 	c := mesh.DefaultConsts()
 	m := mesh.New(c, seed*100000+int64(sp.Trial))
 	t := &c01Trial{sp: sp, m: m, orig: map[string]map[string]bool{}, links: map[string]*mesh.LinkInfo{}, silentL: map[string]bool{}, dead: map[string]bool{}}
@@ -608,13 +613,58 @@ func runC01Trial(run *ev.Run, sp *c01Spec, seed int64) {
 			ks = append(ks, k)
 		}
 		sort.Strings(ks)
+		if st, mx, tot := starved(trialStart); st {
+			// watchdog, not a verdict: this process itself was starved of CPU while the trial ran
+			run.Count("verdicts_withheld_because_the_process_was_starved", 1)
+			run.Inconclusive(fmt.Sprintf("C01 trial %d: tables differ from the oracle, but this process was starved while the trial ran (largest scheduling delay %v, %v in total): no verdict", sp.Trial, mx.Round(time.Millisecond), tot.Round(time.Millisecond)))
+			return
+		}
+		// diagnostics for triage: the state of every link as the harness and as both ends see it, and (once per run)
+		// a dump of all goroutines of this process
+		linkStates := []string{}
+		for _, li := range t.m.LinkList() {
+			ea, eb := false, false
+			if na := t.m.Node(li.A); na != nil && na.IsAlive() {
+				for _, c := range na.Inst().Status().Connections {
+					if c.NodeID == li.B {
+						ea = true
+					}
+				}
+			}
+			if nb := t.m.Node(li.B); nb != nil && nb.IsAlive() {
+				for _, c := range nb.Inst().Status().Connections {
+					if c.NodeID == li.A {
+						eb = true
+					}
+				}
+			}
+			linkStates = append(linkStates, fmt.Sprintf("%s up=%v dead=%v listed-at-%s=%v listed-at-%s=%v", li.L.ID, li.L.IsUp(), li.Dead, li.A, ea, li.B, eb))
+		}
+		sort.Strings(linkStates)
+		c01DumpOnce.Do(func() {
+			if f, err := os.Create(filepath.Join(ev.Root(), ".work", "replay", fmt.Sprintf("C01-goroutines-seed%d-trial%d.txt", run.Seed, sp.Trial))); err == nil {
+				_ = pprof.Lookup("goroutine").WriteTo(f, 2)
+				f.Close()
+			}
+		})
+		known := map[string]any{}
+		if len(verdicts[2]) > 0 {
+			if nd := t.m.Node(verdicts[2][0].Node); nd != nil && nd.IsAlive() {
+				st := nd.Inst().Status()
+				known["node"] = verdicts[2][0].Node
+				known["known_connection_costs"] = st.KnownConnectionCosts
+				known["routing_table"] = st.RoutingTable
+			}
+		}
 		run.Violation("route:"+strings.Join(cl, "+"), fmt.Sprintf("trial %d: routing tables wrong at 3 evaluations after %d originated rounds and again at 3 evaluations after as many more (events %v): %v", sp.Trial, k, ks, verdicts[2][0]),
-			map[string]any{"spec": sp, "diffs": verdicts[2], "topology": t.m.Topo().Adj})
+			map[string]any{"spec": sp, "diffs": verdicts[2], "topology": t.m.Topo().Adj, "links": linkStates, "first_wrong_node": known})
 	default:
 		run.Inconclusive(fmt.Sprintf("C01 trial %d: verdict unstable across evaluations", sp.Trial))
 	}
 	run.Sample(map[string]any{"spec": sp, "delivery_order_hash": hh, "routing_messages": routes})
 }
+
+var c01DumpOnce sync.Once
 
 func specKey(sp *c01Spec) string {
 	h := sha256.New()
